@@ -1,5 +1,154 @@
-(* C18 — temporary stub while the proofs are being built *)
-From PGV Require Import C18.Model C18.ProofsClock.
-Theorem merge_is_lub : forall a b k, vget k (vmerge a b) = Nat.max (vget k a) (vget k b).
-Proof. exact vget_vmerge. Qed.
-Print Assumptions merge_is_lub.
+(* C18 — Execution traces are faithful and causally consistent.
+   Only the property theorems, each closed by a lemma of C18/Proofs*.v, with Print Assumptions beneath.
+   Model: C18/Model.v (tied to the Go runtime by the correspondence check, ./check C18).
+
+   Everything is quantified over every configuration c (any number of archetype instances, any scripted
+   program per instance - labels, retries, forced aborts, any reads/writes of locals, shared variables,
+   channels and mailboxes, malformed ops included), and every schedule sched (any interleaving of single
+   ops, with any outcome of the timer/network choices the implementation makes).  `run c sched` is the
+   state reached; `a_log` is what the Recorder of an archetype received. *)
+From PGV Require Import C18.Model C18.ProofsClock C18.ProofsFrame C18.ProofsLog C18.ProofsReplay C18.ProofsCausal.
+From Coq Require Import Lia.
+
+(* logged exactly once, in program order: the events carry the attempt numbers 1, 2, 3, ... without gap or
+   repetition; every attempt that was begun (a_att counts the InitCriticalSection calls) except the one still
+   running is in the log; and the log agrees, attempt by attempt, with how the Run loop ended it
+   (a_hist: committed or aborted). *)
+Theorem logged_exactly_once_in_order : forall c sched a,
+  a < List.length (cf_archs c) ->
+  let A := g_arch (run c sched) a in
+  map e_no (a_log A) = seq 1 (List.length (a_log A)) /\
+  a_att A = S (List.length (a_log A)) /\
+  map (fun e => (e_no e, e_abort e)) (a_log A) = map (fun h => (h_no h, h_abort h)) (a_hist A).
+Proof. exact logged_once_lemma. Qed.
+Print Assumptions logged_exactly_once_in_order.
+
+(* elements faithful: the elements of every logged event are exactly (same order, names, indices, values,
+   hints) the elements of the operations that attempt performed successfully (h_perf: what Read returned
+   to / Write accepted from the caller, with the value overwritten), the logged clock is the sink clock at
+   the end of the attempt, and the same holds for the attempt in flight. *)
+Theorem elements_faithful : forall c sched a,
+  a < List.length (cf_archs c) ->
+  let A := g_arch (run c sched) a in
+  map e_elems (a_log A) = map (fun h => map elem_of (h_perf h)) (a_hist A) /\
+  map e_clock (a_log A) = map h_clock (a_hist A) /\
+  a_elems A = map elem_of (a_perf A).
+Proof. exact elements_faithful_lemma. Qed.
+Print Assumptions elements_faithful.
+
+(* ... where a successful Read records the value it returns, a successful Write records the value written and,
+   as its hint, the value it overwrote (none for channels and mailboxes), and a failed or panicking
+   operation records nothing - from any state whatsoever. *)
+Theorem read_element_faithful : forall st a r idx tmo,
+  match do_read st a r idx tmo with
+  | RROk st' v => a_elems (g_arch st' a) = a_elems (g_arch st a) ++ [ERead r idx v]
+  | RRAbort st' | RRCrash st' => a_elems (g_arch st' a) = a_elems (g_arch st a)
+  end.
+Proof.
+  intros st a r idx tmo. pose proof (do_read_trace st a r idx tmo) as T. cbn zeta in T.
+  destruct (do_read st a r idx tmo); apply T.
+Qed.
+Print Assumptions read_element_faithful.
+
+Theorem write_element_faithful : forall st a r idx z tmo,
+  match do_write st a r idx z tmo with
+  | WROk st' => a_elems (g_arch st' a) = a_elems (g_arch st a) ++ [EWrite r idx (VInt z) (overwritten st a r idx)]
+  | WRAbort st' | WRCrash st' => a_elems (g_arch st' a) = a_elems (g_arch st a)
+  end.
+Proof.
+  intros st a r idx z tmo. pose proof (do_write_trace st a r idx z tmo) as T. cbn zeta in T.
+  destruct (do_write st a r idx z tmo); apply T.
+Qed.
+Print Assumptions write_element_faithful.
+
+(* replay: running the log of an archetype against its initial local state - elements of an attempt applied
+   to a tentative copy that is kept only if the attempt committed - every logged read of .pc or of a local
+   variable (whole or at an index) shows the replayed value, and every logged write of local state carries
+   the overwritten value as its hint. *)
+Theorem replay_reproduces_local_reads : forall c sched a,
+  a < List.length (cf_archs c) ->
+  snd (replay_log (init_store a (nth a (cf_archs c) no_arch)) (a_log (g_arch (run c sched) a))) = true.
+Proof. exact replay_ok_lemma. Qed.
+Print Assumptions replay_reproduces_local_reads.
+
+(* own component = number of attempts: the event of attempt number k carries k in the archetype's own
+   component (with logged_exactly_once_in_order: 1, 2, 3, ... along the log) *)
+Theorem own_component : forall c sched a e,
+  In e (a_log (g_arch (run c sched) a)) -> vget a (e_clock e) = e_no e.
+Proof. exact own_component_lemma. Qed.
+Print Assumptions own_component.
+
+(* ------------------------------------------------------------------------------------------------
+   reader dominates writer.  e_srcs er lists, for every read of the attempt, the kind of resource and the
+   (ghost) attempt (w, i) that wrote the value returned.  Full statement: *)
+Definition reader_dominates_writer_stmt : Prop := forall c sched r er k w i ew,
+  In er (a_log (g_arch (run c sched) r)) -> In (k, (w, i)) (e_srcs er) ->
+  In ew (a_log (g_arch (run c sched) w)) -> e_no ew = i ->
+  vle (e_clock ew) (e_clock er).
+
+(* It is false for TCP mailboxes (the value is encoded with the sender's clock as of the Write, the sender's
+   event carries its clock as of commit).  Witness: Z (0) sends 7 to mailbox 1 (owned by W); W (1) sends 5 to
+   mailbox 0 (owned by R) and THEN reads Z's message, commits; R (2) reads W's message.
+   W's event clock is {Z:1, W:1}, R's is {W:1, R:1}. *)
+Definition wit_cfg : cfg :=
+  mkCfg [mkACfg [[([OWrite (NBox 1) [] (EConst 7)], false)]] [];
+         mkACfg [[([OWrite (NBox 0) [] (EConst 5); ORead (NBox 1) []], false)]] [];
+         mkACfg [[([ORead (NBox 0) []], false)]] []]
+        [] [2; 1].
+Definition wit_sched : list (nat * bool) :=
+  [(0, false); (0, false); (1, false); (1, false); (1, false); (2, false); (2, false)].
+
+Theorem reader_dominates_writer_refuted :
+  exists c sched r er k w i ew,
+    In er (a_log (g_arch (run c sched) r)) /\ In (k, (w, i)) (e_srcs er) /\
+    In ew (a_log (g_arch (run c sched) w)) /\ e_no ew = i /\
+    k = KBox /\ vget 0 (e_clock er) < vget 0 (e_clock ew).
+Proof.
+  exists wit_cfg, wit_sched, 2.
+  eexists. exists KBox, 1, 1. eexists.
+  split; [vm_compute; left; reflexivity|].
+  split; [vm_compute; right; left; reflexivity|].
+  split; [vm_compute; left; reflexivity|].
+  vm_compute. repeat split. lia.
+Qed.
+Print Assumptions reader_dominates_writer_refuted.
+
+Theorem reader_dominates_writer_stmt_is_false : ~ reader_dominates_writer_stmt.
+Proof.
+  intros H. destruct reader_dominates_writer_refuted as (c & sched & r & er & k & w & i & ew & H1 & H2 & H3 & H4 & _ & H5).
+  specialize (H c sched r er k w i ew H1 H2 H3 H4 0). lia.
+Qed.
+Print Assumptions reader_dominates_writer_stmt_is_false.
+
+(* What holds for every resource kind, mailboxes included: the reader's clock covers the writing attempt in
+   the writer's own component (the reader knows that attempt (w, i) happened; by own_component the writer's
+   event carries exactly i there). *)
+Theorem reader_covers_writer_component : forall c sched r er k w i,
+  In er (a_log (g_arch (run c sched) r)) -> In (k, (w, i)) (e_srcs er) -> i <= vget w (e_clock er).
+Proof. exact reader_covers_writer_component_lemma. Qed.
+Print Assumptions reader_covers_writer_component.
+
+(* ------------------------------------------------------------------------------------------------ non-vacuity *)
+
+(* the scenario that was broken before the repair of LocalArchetypeResource.Commit: Z sends on a channel;
+   W writes the shared variable and then reads Z's message; R reads the shared variable.
+   R's event names W's attempt as the source of what it read, and dominates it. *)
+Definition ex_cfg : cfg :=
+  mkCfg [mkACfg [[([OWrite (NOut 0) [] (EConst 7)], false)]] [];
+         mkACfg [[([OWrite (NShr 0) [] (EConst 5); ORead (NIn 0) []; OWrite (NLoc 0) [] (ELast 1)], false)]] [VInt 3];
+         mkACfg [[([ORead (NShr 0) []], true); ([ORead (NShr 0) []], false)]] []]
+        [0%Z] [].
+Definition ex_sched : list (nat * bool) :=
+  map (fun a => (a, false)) [0; 0; 1; 1; 1; 1; 2; 2; 2; 2].
+
+Example c18_nonvacuous :
+  let st := run ex_cfg ex_sched in
+  map (fun e => (e_no e, e_abort e, vvec 3 (e_clock e))) (a_log (g_arch st 2)) = [(1, true, [1; 1; 1]); (2, false, [1; 1; 2])] /\
+  map e_srcs (a_log (g_arch st 2)) = [[(KLoc, (2, 0)); (KShr, (1, 1))]; [(KLoc, (2, 0)); (KShr, (1, 1))]] /\
+  map (fun e => vvec 3 (e_clock e)) (a_log (g_arch st 1)) = [[1; 1; 0]] /\
+  List.length (a_hist (g_arch st 1)) = 1 /\
+  map e_elems (a_log (g_arch st 1)) =
+    [[ERead NPc [] (VInt 0); EWrite (NShr 0) [] (VInt 5) (Some (VInt 0)); ERead (NIn 0) [] (VInt 7);
+      EWrite (NLoc 0) [] (VInt 8) (Some (VInt 3)); EWrite NPc [] (VInt 1) (Some (VInt 0))]] /\
+  snd (replay_log (init_store 1 (nth 1 (cf_archs ex_cfg) no_arch)) (a_log (g_arch st 1))) = true.
+Proof. vm_compute. repeat split. Qed.
